@@ -96,6 +96,10 @@ static std::vector<Rej> catalogue() {
     add("Block::createDataArray(duplicate name)", [](File &f) { B0(f).createDataArray(A0(f).name(), "t", DataType::Int32, NDSize({1})); });
     add("Block::createDataArray(duplicate name, typed value overload)", [](File &f) { B0(f).createDataArray(A0(f).name(), "t", std::vector<double>{1, 2}); });
     add("Block::createDataFrame(duplicate name)", [](File &f) { B0(f).createDataFrame(F0(f).name(), "other", std::vector<Column>{{"z", "", DataType::Int32}}); });
+    add("Block::createDataArray(duplicate name of the last array)", [](File &f) { Block b = B0(f); need(b.dataArrayCount() > 1); b.createDataArray(b.getDataArray(b.dataArrayCount() - 1).name(), "other", DataType::Int32, NDSize({1})); });
+    add("Block::createDataArray(duplicate name of the last array, typed value overload)", [](File &f) { Block b = B0(f); need(b.dataArrayCount() > 1); b.createDataArray(b.getDataArray(b.dataArrayCount() - 1).name(), "other", std::vector<double>{1, 2}); });
+    add("Block::createDataFrame(duplicate name of the last frame)", [](File &f) { Block b = B0(f); need(b.dataFrameCount() > 1); b.createDataFrame(b.getDataFrame(b.dataFrameCount() - 1).name(), "other", std::vector<Column>{{"z", "", DataType::Int32}}); });
+    add("Block::createTag(duplicate name of the last tag)", [](File &f) { Block b = B0(f); need(b.tagCount() > 1); b.createTag(b.getTag(b.tagCount() - 1).name(), "other", {5.0}); });
     add("Block::createTag(duplicate name)", [](File &f) { B0(f).createTag(T0(f).name(), "t", {5.0}); });
     add("Block::createMultiTag(duplicate name)", [](File &f) { B0(f).createMultiTag(M0(f).name(), "t", A0(f)); });
     add("Block::createGroup(duplicate name)", [](File &f) { B0(f).createGroup(G0(f).name(), "t"); });
